@@ -722,7 +722,9 @@ pub const HEX_PRISM: &str = "<1.1:2 3:2,1 2,1 2,2:6,3 2,6>";
 
 /// The space-group sweep: covers of the two maximal-symmetry literals.
 pub fn sweep_counts(corpus: &Corpus, tier: Tier) -> CoverCounts {
-    let (kc, kh) = if tier == Tier::Thorough { (48, 24) } else { (24, 16) };
+    // cube: 32 sheets in quick (seeded defect S25 first shows on a 27-sheeted cover: an
+    // i8 node table overflowing at 129 raw orbifold-graph nodes), 48 in thorough
+    let (kc, kh) = if tier == Tier::Thorough { (48, 24) } else { (32, 16) };
     let mut entries: Vec<(&Entry, bool, usize)> = vec![];
     for e in corpus.k0.iter() {
         if e.text == CUBE {
